@@ -136,3 +136,14 @@ package resolver
 // the closed historical set es3, es5, es6/es2015 ... es2021, and nothing in that set may be classified at-or-above.
 //@ guarded target-below-es2022-is-the-historical-set C06: func=ParseTSConfigJSON ; in=resolver ; site=store TSConfig.Target const config.TSTargetBelowES2022 ; scenario=tsconfig_target_es2021_define ; require-any=true:*=="es3" || true:*=="es5" || true:*=="es6" || true:*=="es201*" || true:*=="es2020" || true:*=="es2021"
 //@ guarded target-at-or-above-es2022-excludes-older C06: func=ParseTSConfigJSON ; in=resolver ; site=store TSConfig.Target const config.TSTargetAtOrAboveES2022 ; scenario=tsconfig_target_es2021_define ; require-any=true:*=="es2022" || true:*=="es2023" || true:*=="es2024" || true:*=="es2025" || true:*=="es2026" || true:*=="es2027" || true:*=="es2028" || true:*=="es2029" || true:*=="es203*" || true:*=="esnext"
+
+// C11 ("exports" is the package's whole interface): Node's PACKAGE_RESOLVE returns the outcome of
+// PACKAGE_EXPORTS_RESOLVE for the FIRST node_modules directory that has the package, found or not; a subpath the
+// "exports" map refuses is an error there and the walk up the directory tree stops (a copy of the package further out
+// must not be substituted). The fifth result of tryToResolvePackage is "stop the walk".
+//@ flow exports-refusal-stops-the-node-modules-walk C11: func=(resolverQuery).loadNodeModules ; in=resolver ; site=returns loadNodeModules$* ; when-ret=0:call esmResolveAlgorithm(*)#0 ; scenario=exports_refusal_falls_back_to_outer_copy ; retpath=4:true
+
+// C11 (a module has one identity, its real path - node's realpath semantics): when the entry ITSELF is a symlink its
+// own target is the real path; "real path of the directory + base name" is the real path only for an entry that is
+// not a symlink (otherwise the result is still a link, and the same file gets two identities).
+//@ guarded parent-real-path-only-for-non-symlink-entries C11: func=(resolverQuery).finalizeResolve ; in=resolver ; site=invoke Join ; when-arg=0:*.absRealPath* ; scenario=file_symlink_inside_symlinked_dir ; require=false:call Symlink(*)!=""
